@@ -1347,6 +1347,19 @@ func (f *frame) atCallObligations(key string, args []SV, pos token.Pos) {
 				extra[fmt.Sprintf("arg%d", i)] = a
 			}
 		}
+		// ghost results of earlier calls ("calls F(..) as name") are visible by name
+		for gk, gcs := range top.contract.Calls {
+			if gcs.As == "" {
+				continue
+			}
+			if t, ok := top.ghostRetTypes[gk]; ok && t != nil {
+				term, ok2 := f.curHeap[ghostRetKey(gk)]
+				if !ok2 {
+					term = e.zeroValue(t)
+				}
+				extra[gcs.As] = SV{t: t, term: term}
+			}
+		}
 		c, ok := func() (c string, ok bool) {
 			// a clause naming a version of a local (x#upd) that is not computed yet at this
 			// call site says nothing about this site
